@@ -54,6 +54,9 @@ type EnumOption struct {
 	Name string            `json:"name"`
 	Desc string            `json:"desc,omitempty"`
 	Info map[string]string `json:"info,omitempty"`
+	// Number: an explicit `number = N`. The language accepts it; options are
+	// numbered by position all the same (C02), so no expectation depends on it.
+	Number *int32 `json:"number,omitempty"`
 }
 
 type Enum struct {
